@@ -37,6 +37,9 @@ def to_chain_structure(qc, setup="linear"):
         "SQRTSWAP",
         "BERKELEY",
         "SWAPalpha",
+        # the same gates under their other library names
+        "SWAPALPHA",
+        "iSWAP",
     ]
     N = qc.N
 
